@@ -901,6 +901,14 @@ class Facts:
             return None
         # a crate compiled twice (proc-macro host + check) yields identical files; take one
         with open(files[0]) as fh:
-            c = Crate(json.load(fh))
+            text = fh.read()
+        if not os.environ.get('VERIF_NO_INLINE'):
+            # items moved to another module since the rules were confirmed keep their old path (rules/renames.py)
+            from rules import renames
+            if not hasattr(self, '_renames'):
+                self._renames = renames.for_directory(self.dir)
+            if self._renames:
+                text = renames.apply(text, self._renames)
+        c = Crate(json.loads(text))
         self.crates[name] = c
         return c
